@@ -626,6 +626,9 @@ def write_case(f, c):
         f.write("src %s\n" % hexs(c["src"]))
     if "xml" in c:
         f.write("xml %s\n" % hexs(c["xml"]))
+    if "tree" in c:
+        # kind dig: the XML tree of `xml` in prefix token form (tools/gen_dig.py); read by the model only
+        f.write("tree %s\n" % c["tree"])
     for s in c.get("sigs", []):
         f.write("sig %s %s %d %s\n" % (hexs(s["name"]), s["typ"], s["bits"], s["default"]))
     if "layout" in c:
